@@ -34,6 +34,7 @@
 #include <unicode/uchar.h>
 #include <unicode/ucnv.h>
 #include <unicode/ucnv_err.h>
+#include <unicode/ucnv_cb.h>
 #include <unicode/ustring.h>
 #include <unicode/udata.h>
 #if (U_ICU_VERSION_MAJOR_NUM >= 2)
@@ -64,6 +65,47 @@ extern "C" const uint8_t U_IMPORT icudata_dat[];
 
 
 namespace XERCES_CPP_NAMESPACE {
+
+// ---------------------------------------------------------------------------
+//  Local from-Unicode callbacks
+//
+//  ICU's own STOP and SUBSTITUTE callbacks skip an unmappable code point
+//  which has the Default_Ignorable_Code_Point property (soft hyphen, zero
+//  width space, ...) and carry on as if it had been converted. We must not
+//  lose characters without telling, so these two treat every code point
+//  alike: the first leaves the error set by the converter in place, the
+//  second writes the converter's substitution character.
+// ---------------------------------------------------------------------------
+extern "C"
+{
+static void U_EXPORT2
+fromUCallbackStop(  const void*
+                    , UConverterFromUnicodeArgs*
+                    , const UChar*
+                    , int32_t
+                    , UChar32
+                    , UConverterCallbackReason
+                    , UErrorCode*)
+{
+}
+
+static void U_EXPORT2
+fromUCallbackSubstitute(const void*
+                        , UConverterFromUnicodeArgs*    args
+                        , const UChar*
+                        , int32_t
+                        , UChar32
+                        , UConverterCallbackReason      reason
+                        , UErrorCode*                   err)
+{
+    if (reason <= UCNV_IRREGULAR)
+    {
+        *err = U_ZERO_ERROR;
+        ucnv_cbFromUWriteSub(args, 0, err);
+    }
+}
+}
+
 
 // ---------------------------------------------------------------------------
 //  Local, const data
@@ -661,8 +703,8 @@ ICUTranscoder::transcodeTo( const   XMLCh* const    srcData
     ucnv_setFromUCallBack
     (
         fConverter
-        , (options == UnRep_Throw) ? UCNV_FROM_U_CALLBACK_STOP
-                                   : UCNV_FROM_U_CALLBACK_SUBSTITUTE
+        , (options == UnRep_Throw) ? fromUCallbackStop
+                                   : fromUCallbackSubstitute
         , NULL
         , &oldCB
         , &orgContent
@@ -757,7 +799,7 @@ bool ICUTranscoder::canTranscodeTo(const unsigned int toCheck)
      ucnv_setFromUCallBack
          (
          fConverter
-         , UCNV_FROM_U_CALLBACK_STOP
+         , fromUCallbackStop
          , NULL
          , &oldCB
          , &orgContent
